@@ -1,7 +1,28 @@
 /-
   Ohsl.Lemmas.LURounding — backward error analysis of the dense LU solver (`Mat.luDecomp`,
   `Mat.forwardSub`, `Mat.backsolve`, `Mat.solveLU`) in the "rounded reals" interpretation `Fl M`
-  (Ohsl/Lemmas/Rounding.lean).  Helper file of Ohsl/Props/C01F.lean.
+  (Ohsl/Lemmas/Rounding.lean).  Helper file of Ohsl/Props/C01F.lean (read its header first).
+
+  Contents
+  * `FlModel.gq`, `FlModel.Th`  the constants `(1-u)^{-n} - 1` and the calculus of relative
+        perturbation factors: `Th k t ↔ (1-u)^k ≤ t ≤ (1-u)^{-k}`; `Th.one/mono/mul/inv/div/of_delta`,
+        `Th.abs_sub_one_le : Th k t → |t - 1| ≤ gq k`, `gq_add`, `gam_le_gq`, `gq_le_gamma`, `gq_exact`
+        (Higham, Lemma 3.1).  Needs only `u < 1`.
+  * `Mat.sdot f g c lo hi`      the recurrence `s ← s - f t * g t`, `t = lo … hi-1`, from `c`;
+    `Mat.sdot_backward`         (F) `c = ŝ θ₀ + Σ f_t g_t θ_t` exactly, `θ ∈ Th (hi - lo)`
+                                (Higham, Lemma 8.4, for this order of evaluation).
+  * (S) `forwardSub_sdot`, `backsolve_sdot`, `luElimRow_struct`: what the loops compute, for every
+        scalar type (no algebraic law): the structural part of the invariants of SolveSound.lean.
+  * (F) `backsolve_backward_ent`, `forwardSub_backward_ent`: layer A with the canonical entry
+        functions and full sums `Σ_{c<n} Ufn … `, `Σ_{k<n} Lfn …` (`Lfn`, `Ufn` of LUDet.lean at `ℝ`).
+  * (F) `luPivot_fl`, `LURowF` (+ `init/transfer/skip/elim/full`), `luElimLoop_fl`, `PermOK`,
+        `swapIdx`, `LUInvF` (+ `swap/elim/skip/backward`), `luStep_fl`, `luDecomp_fl`: layer B — the
+        invariant of `lu_decomp_in_place` with partial pivoting: recorded permutation, row relation
+        with perturbation factors, multipliers `≤ 1 + u` (`Fl.abs_div_le`).
+  * (F) `foldl_single`, `mulVec_perm_fl` (`P·b` costs up to `n+1` roundings in the abstract model),
+        `foldl_single_rep`, `mulVec_perm_rep` (none for a representable `b`).
+  * `lu_compose` (pure real algebra), `solveLU_backward_core`: layer C.
+  * `maxRow`, `rowNorm`: the maximum absolute row sum.
 -/
 import Ohsl.Model.Solve
 import Ohsl.Lemmas.SolveSound
@@ -1287,6 +1308,53 @@ theorem mulVec_perm_fl (hu : M.u < 1) {p : Mat (Fl M)} {n : Nat} {π : Nat → N
     unfold vf
     ring
 
+/-- the same when the non-zero term is representable: no rounding error at all -/
+theorem foldl_single_rep (T : Nat → Fl M) (j0 : Nat) (hrep : M.Rep (T j0).val)
+    (hz : ∀ t, t ≠ j0 → (T t).val = 0) (n : Nat) :
+    (j0 < n → (((List.range n).map T).foldl (· + ·) 0).val = (T j0).val) ∧
+    (n ≤ j0 → (((List.range n).map T).foldl (· + ·) 0).val = 0) := by
+  induction n with
+  | zero => exact ⟨fun h => by omega, fun _ => rfl⟩
+  | succ k ih =>
+    have hstep : (((List.range (k + 1)).map T).foldl (· + ·) 0)
+        = ((List.range k).map T).foldl (· + ·) 0 + T k := by
+      rw [List.range_succ, List.map_append, List.foldl_append]; rfl
+    constructor
+    · intro hj
+      rw [hstep, Fl.add_val]
+      by_cases hjk : j0 < k
+      · rw [ih.1 hjk, hz k (by omega), add_zero]; exact hrep
+      · have : j0 = k := by omega
+        subst this
+        rw [ih.2 (Nat.le_refl _), zero_add]; exact hrep
+    · intro hj
+      rw [hstep, Fl.add_val, ih.2 (by omega), hz k (by omega), add_zero, M.fl_zero]
+
+/-- **`P·b` for a representable right-hand side** (`fl b_j = b_j`, as for every `f64` input):
+the product is the exact permutation of `b` -/
+theorem mulVec_perm_rep {p : Mat (Fl M)} {n : Nat} {π : Nat → Nat}
+    (hp : Is p n n (fun r c => if c = π r then (1 : Fl M) else 0)) (hπ : ∀ r, r < n → π r < n)
+    {v : Array (Fl M)} (hv : v.size = n) (hrep : ∀ j, j < n → M.Rep (vf v j).val) :
+    ∃ w, mulVec p v = .ok w ∧ w.size = n ∧ ∀ r, r < n → (vf w r).val = (vf v (π r)).val := by
+  refine ⟨_, mulVec_spec hp v hv, by simp, ?_⟩
+  intro r hr
+  simp only [vf, List.getElem?_toArray, List.getElem?_map, List.getElem?_range hr, Option.map_some,
+    Option.getD_some]
+  rw [zipWith_foldl_range _ v n hv]
+  have hz : ∀ t, t ≠ π r → ((if t = π r then (1 : Fl M) else 0) * vf v t).val = 0 := by
+    intro t ht
+    rw [if_neg ht, Fl.mul_val, Fl.zero_val, zero_mul, M.fl_zero]
+  have h1 : ((if π r = π r then (1 : Fl M) else 0) * vf v (π r)).val = (vf v (π r)).val := by
+    rw [if_pos rfl, Fl.mul_val, Fl.one_val, one_mul]
+    exact hrep _ (hπ r hr)
+  have := (foldl_single_rep (fun t => (if t = π r then (1 : Fl M) else 0) * vf v t) (π r)
+    (by show M.Rep ((if π r = π r then (1 : Fl M) else 0) * vf v (π r)).val
+        rw [h1]; exact hrep _ (hπ r hr)) hz n).1 (hπ r hr)
+  show (((List.range n).map (fun t => (if t = π r then (1 : Fl M) else 0) * vf v t)).foldl
+      (· + ·) 0).val = _
+  rw [this]
+  exact h1
+
 end PermVec
 
 end LUFl
@@ -1442,6 +1510,50 @@ theorem solveLU_backward_core (hu : M.u < 1) {n : Nat} (hn : 1 ≤ n) {A : Mat (
       (fun r k c hr hk hc => (hgq3 r k c hr hk hc).abs_sub_one_le hu)
 
 end Assemble
+
+/-! ### the maximum row sum -/
+
+section NormInf
+
+/-- `max (0, g 0, …, g (n-1))` -/
+def maxRow : Nat → (Nat → ℝ) → ℝ
+  | 0, _ => 0
+  | n + 1, g => max (maxRow n g) (g n)
+
+theorem maxRow_nonneg (n : Nat) (g : Nat → ℝ) : 0 ≤ maxRow n g := by
+  induction n with
+  | zero => exact le_refl _
+  | succ n ih => exact ih.trans (le_max_left _ _)
+
+theorem le_maxRow {n : Nat} (g : Nat → ℝ) {j : Nat} (hj : j < n) : g j ≤ maxRow n g := by
+  induction n with
+  | zero => omega
+  | succ n ih =>
+    rcases Nat.lt_succ_iff_lt_or_eq.mp hj with h | rfl
+    · exact (ih h).trans (le_max_left _ _)
+    · exact le_max_right _ _
+
+theorem maxRow_le {n : Nat} (g : Nat → ℝ) {b : ℝ} (hb : 0 ≤ b) (h : ∀ j, j < n → g j ≤ b) :
+    maxRow n g ≤ b := by
+  induction n with
+  | zero => exact hb
+  | succ n ih => exact max_le (ih (fun j hj => h j (by omega))) (h n (by omega))
+
+/-- `‖F‖_∞` of the `n × n` array `F`: the largest absolute row sum -/
+def rowNorm (n : Nat) (F : Nat → Nat → ℝ) : ℝ :=
+  maxRow n (fun r => ∑ c ∈ Finset.range n, |F r c|)
+
+theorem rowNorm_nonneg (n : Nat) (F : Nat → Nat → ℝ) : 0 ≤ rowNorm n F := maxRow_nonneg _ _
+
+theorem row_le_rowNorm {n : Nat} (F : Nat → Nat → ℝ) {r : Nat} (hr : r < n) :
+    ∑ c ∈ Finset.range n, |F r c| ≤ rowNorm n F :=
+  le_maxRow (fun r => ∑ c ∈ Finset.range n, |F r c|) hr
+
+theorem rowNorm_le {n : Nat} (F : Nat → Nat → ℝ) {b : ℝ} (hb : 0 ≤ b)
+    (h : ∀ r, r < n → ∑ c ∈ Finset.range n, |F r c| ≤ b) : rowNorm n F ≤ b :=
+  maxRow_le _ hb h
+
+end NormInf
 
 end Mat
 
